@@ -122,3 +122,63 @@ Definition proof_sound (cs : list chk) (c : chk) (o : option proof) : bool :=
     && negb (p_first p =? c_hdr c)
     && existsb (fun c0 => (c_slot c0 =? c_slot c) && (c_signer c0 =? c_signer c) && (c_hdr c0 =? p_first p)) cs
   end.
+
+(* ---------- window specification (added by the second-round audit) ----------
+   The property text speaks of "a different header recorded for that slot within the retained
+   window".  `ast` is that notion without any database representation: the first saved slot
+   (None before the first recorded check) and a partial function (slot, signer) -> recorded
+   header.  `a_step` says when a check is answered with a proof, when it is recorded and what
+   leaves the window; C27_window_spec proves that CheckEquivocation refines it on EVERY
+   history.  The driver evaluates the implementation's answers against `a_run`. *)
+Record ast := mkast { a_start : option N; a_ret : N -> N -> option N }.
+Definition a_init : ast := mkast None (fun _ _ => None).
+Definition a_first (a : ast) (slot : N) : N := match a_start a with Some f => f | None => slot end.
+Definition a_in_window (a : ast) (c : chk) : bool :=
+  negb (out_of_capacity c) && negb (c_now c <? a_first a (c_slot c)).
+Definition a_step (a : ast) (c : chk) : ast * option proof :=
+  if a_in_window a c then
+    match a_ret a (c_slot c) (c_signer c) with
+    | Some h' => (a, if h' =? c_hdr c then None
+                     else Some (mkproof (c_slot c) (c_signer c) h' (c_hdr c)))
+    | None =>
+      let first := a_first a (c_slot c) in
+      let nf := if pruning_bound <=? c_now c - first then sat_sub (c_now c) max_slot_capacity else first in
+      (mkast (Some nf)
+             (fun sl sg => if (first <=? sl) && (sl <? nf) then None
+                           else if (c_slot c =? sl) && (c_signer c =? sg) then Some (c_hdr c)
+                           else a_ret a sl sg), None)
+    end
+  else (a, None).
+Fixpoint a_run (a : ast) (cs : list chk) : list (option proof) :=
+  match cs with
+  | [] => []
+  | c :: r => let '(a1, o) := a_step a c in o :: a_run a1 r
+  end.
+Definition spec_answers (cs : list chk) : list (option proof) := a_run a_init cs.
+
+(* uint64 *)
+Definition two64 : N := 18446744073709551616.
+Definition chk_u64 (c : chk) : bool := (c_now c <? two64) && (c_slot c <? two64).
+Definition st_u64 (s : st) : bool :=
+  match start s with Some f => f <? two64 | None => true end && forallb (fun kv => fst kv <? two64) (recs s).
+
+(* ---------- vm_compute cross-check of the extraction (bin/check vm_sample) ---------- *)
+Definition proof_eqb (p q : proof) : bool :=
+  (p_slot p =? p_slot q) && (p_offender p =? p_offender q) && (p_first p =? p_first q) && (p_second p =? p_second q).
+Definition oproof_eqb (a b : option proof) : bool :=
+  match a, b with None, None => true | Some p, Some q => proof_eqb p q | _, _ => false end.
+Fixpoint list_eqb {A} (e : A -> A -> bool) (l1 l2 : list A) : bool :=
+  match l1, l2 with
+  | [], [] => true
+  | x :: r1, y :: r2 => e x y && list_eqb e r1 r2
+  | _, _ => false
+  end.
+Definition hs_eqb (a b : N * N) : bool := (fst a =? fst b) && (snd a =? snd b).
+(* the implementation's observables of one case: answers, slot_header_start, table dump *)
+Definition vm_case (cs : list chk) (outs : list (option proof)) (st0 : option N)
+  (db : list (N * hs_list)) : bool :=
+  let '(s, o) := run init cs in
+  list_eqb oproof_eqb o outs && list_eqb oproof_eqb (spec_answers cs) outs
+  && match start s, st0 with None, None => true | Some a, Some b => a =? b | _, _ => false end
+  && Nat.eqb (length (recs s)) (length db)
+  && forallb (fun kv => list_eqb hs_eqb (get (recs s) (fst kv)) (snd kv)) db.
